@@ -17,6 +17,8 @@ AllConn == {"none", "close", "Close", "keep-alive", "Keep-Alive", "keep-alive, c
 \* --- C10: persistence.  every version x Connection value x handler close; all persistence settings
 ReqsC10 == { MkReq(v, c, "ok", h) : v \in {"1.1", "1.0"}, c \in AllConn, h \in BoolSet }
            \cup { MkReq(v, c, "timeout", FALSE) : v \in {"1.1", "1.0"}, c \in {"none", "close", "keep-alive"} }
+           \cup { MkReq("1.1", "none", "unread", FALSE), MkReq("1.1", "none", "bigunread", FALSE),
+                  MkReq("1.0", "keep-alive", "bigunread", FALSE) }
 CfgsC10 == { MkCfg(dk, mr, rmu, TRUE, FALSE) : dk \in BoolSet, mr \in {0, 1, 2}, rmu \in BoolSet }
 CfgsC10q == { MkCfg(dk, mr, rmu, TRUE, FALSE) : dk \in {FALSE}, mr \in {0, 2}, rmu \in BoolSet }
 
